@@ -95,13 +95,22 @@ func (s *Scanner) LoadDatabase(path string) error {
 		return fmt.Errorf("failed to parse signature database: %w", err)
 	}
 
-	s.db = &db
-
-	// Rebuild the map index.
-	s.sigMap = make(map[string]int, len(s.db.Signatures))
-	for i, sig := range s.db.Signatures {
-		s.sigMap[sig.ID] = i
+	// Rebuild the map index. A file that lists an ID twice keeps one record per ID (the last
+	// one wins, as in MigrateFromJSON): a superseded record could never be updated or deleted
+	// through the ID map and every scan would go on reporting it.
+	sigMap := make(map[string]int, len(db.Signatures))
+	kept := db.Signatures[:0]
+	for _, sig := range db.Signatures {
+		if i, dup := sigMap[sig.ID]; dup {
+			kept[i] = sig
+			continue
+		}
+		sigMap[sig.ID] = len(kept)
+		kept = append(kept, sig)
 	}
+	db.Signatures = kept
+	s.db = &db
+	s.sigMap = sigMap
 
 	return nil
 }
